@@ -525,6 +525,11 @@ class Project(MessageHandler):
 
                 if not task.schedule(scIdx):
                     failedTasks.append(task)
+                    # A task that could not be placed has no dates: drop what the
+                    # aborted attempt computed (dates given by the user stay).
+                    for attr in ("start", "end"):
+                        if not task.provided(attr, scIdx) and task.get(attr, scIdx) is not None:
+                            task[(attr, scIdx)] = None
 
                 taskToRemove = task
                 break
